@@ -216,7 +216,7 @@ func isTypeSwitchAssert(x *ssa.TypeAssert) bool {
 
 // nonZeroGuarded: a dominating fact establishes v != 0 / v > 0 / len(x) > 0 for the divisor.
 func nonZeroGuarded(v ssa.Value, b *ssa.BasicBlock) bool {
-	for _, cf := range condFacts(b) {
+	for _, cf := range normFacts(condFacts(b)) {
 		bo, ok := cf.Cond.(*ssa.BinOp)
 		if !ok {
 			continue
@@ -311,7 +311,7 @@ func decodedNumberSource(v ssa.Value, depth int) string {
 
 // boundsGuarded: a dominating fact compares idx with len(coll).
 func boundsGuarded(idx, coll ssa.Value, b *ssa.BasicBlock) bool {
-	for _, cf := range condFacts(b) {
+	for _, cf := range normFacts(condFacts(b)) {
 		bo, ok := cf.Cond.(*ssa.BinOp)
 		if !ok {
 			continue
@@ -436,7 +436,7 @@ func checkParsers(c *Ctx, r *Report) {
 				return
 			}
 			guarded := false
-			for _, cf := range condFacts(in.Block()) {
+			for _, cf := range normFacts(condFacts(in.Block())) {
 				bo, ok := cf.Cond.(*ssa.BinOp)
 				if !ok {
 					continue
@@ -460,7 +460,7 @@ func checkParsers(c *Ctx, r *Report) {
 		key := fmt.Sprintf("%s:empty-input", fname(fn))
 		okEmpty := false
 		for _, ret := range returnsOf(fn) {
-			for _, cf := range condFacts(ret.Block()) {
+			for _, cf := range normFacts(condFacts(ret.Block())) {
 				if x := lenEqZeroOperand(cf.Cond); x != nil && cf.True {
 					if _, isP := x.(*ssa.Parameter); isP {
 						res := retResults(ret)
